@@ -431,14 +431,10 @@ class System:
         self.H = (self.H + self.H.conj().T) / 2
         self.dof_index = {d: i for i, d in enumerate(self.dofs)}
         secs = sorted({tuple(int(x) for x in row) for row in self.bq})
-        # prefer a sector with something to optimise / evolve
-        pick = None
-        for k in range(len(secs)):
-            s = secs[(case["q"] + k) % len(secs)]
-            if int(self.mask(s).sum()) >= 3:
-                pick = s
-                break
-        self.q = pick if pick is not None else secs[case["q"] % len(secs)]
+        # sectors in order of preference: first those with something to optimise / evolve, rotated by the drawn index
+        rot = [secs[(case["q"] + k) % len(secs)] for k in range(len(secs))]
+        self.sector_order = [s for s in rot if int(self.mask(s).sum()) >= 3] + [s for s in rot if int(self.mask(s).sum()) < 3]
+        self.q = self.sector_order[0]
 
     def mask(self, q):
         return np.all(self.bq == np.asarray(q).reshape(1, -1), axis=1)
@@ -695,11 +691,22 @@ class C17(Prop):
 
                 known = classify_swap_assert(e, case, mpo, "swap")
                 sig, in_lib = lib_exception_sig(e)
-                if not known and in_lib and sig.endswith("check_swap_consistency") and qr \
-                        and not traceback.extract_tb(e.__traceback__)[-1].filename.endswith("symbolic_mpo.py"):
-                    # C01's known finding F15: the library's own self-check (assert_allclose) is stricter than the QR cut;
-                    # nothing was modified
-                    r.rejected = "check_swap_consistency refused a QR swap (C01/F15)"
+                if not known and in_lib and sig.endswith("check_swap_consistency") and case["swap_algo"] == "qr":
+                    # C01's known finding F15: the library's own self-check (assert_allclose rtol 1e-8 / rows above 1e-10 of the
+                    # largest) is stricter than the QR cuts; nothing was modified.  As in C01: repeat with the self-check
+                    # disabled; if the operator is right the refusal is F15 (counted as rejected), otherwise it is a failure.
+                    from renormalizer.mps import symbolic_mpo as _sm
+
+                    saved = _sm.check_swap_consistency
+                    _sm.check_swap_consistency = lambda *a, **k: None
+                    try:
+                        mpo.try_swap_site(new_model, swap_jw=jw, algo=case["swap_algo"])
+                        d = np.asarray(mpo.todense())
+                    finally:
+                        _sm.check_swap_consistency = saved
+                    if r.check_close("swap.refused_and_wrong", d, op_forward(H0, transform(dims, order, False)), tol,
+                                     f"self-check refused swap {k} at {pos} and the operator is wrong without it"):
+                        r.rejected = "check_swap_consistency refused a correct QR swap (C01/F15)"
                     return
                 if known:
                     r.fail(known, f"try_swap_site died at swap {k} (position {pos}) of {case['swaps']} (build {case['algo']}, swap "
@@ -738,15 +745,29 @@ class C17(Prop):
             r.rejected = "zero Hamiltonian"
             return None
         model = sysm.model()
-        np.random.seed(case["rng"])
-        try:
-            mps = Mps.random(model, sysm.qarg(), 64 if case["kind"] == "evo" and case["lossless"] else case["m0"], percent=1.0)
-            d0 = mps.todense()
-            if not np.all(np.isfinite(d0)) or np.linalg.norm(d0) == 0:
-                raise FloatingPointError
-        except (FloatingPointError, ZeroDivisionError, ValueError, AssertionError, IndexError):
-            r.rejected = "Mps.random cannot reach the sector with this bond limit"
+        # Mps.random divides by a zero norm when the bond limit is too small for the sector (DESIGN par. 3.2): take the next
+        # larger limit instead of rejecting the case
+        m_first = 64 if case["kind"] == "evo" and case["lossless"] else case["m0"]
+        mps = None
+        for q_try in sysm.sector_order[:4]:
+            sysm.q = q_try
+            for m_try in [m_first] + [m for m in (8, 16, 64) if m > m_first]:
+                np.random.seed(case["rng"])
+                try:
+                    cand = Mps.random(model, sysm.qarg(), m_try, percent=1.0)
+                    d0 = cand.todense()
+                    if not np.all(np.isfinite(d0)) or np.linalg.norm(d0) == 0:
+                        raise FloatingPointError
+                    mps = cand
+                    break
+                except (FloatingPointError, ZeroDivisionError, ValueError, AssertionError, IndexError):
+                    continue
+            if mps is not None:
+                break
+        if mps is None:
+            r.rejected = "Mps.random cannot reach any of the first four sectors with any bond limit"
             return None
+        self._m_used = m_try
         mpo = Mpo(model)
         err0 = float(np.max(np.abs(np.asarray(mpo.todense()) - sysm.H)))
         if not r.check("ofs.initial_mpo", err0 <= 1e-7 * hnorm, f"operator before the run differs from the dense reference by {err0:.2e}"):
@@ -873,7 +894,7 @@ class C17(Prop):
         if case["cplx"]:
             np.random.seed(case["rng"] + 7)
             try:
-                other = Mps.random(model, sysm.qarg(), 64 if case["lossless"] else case["m0"], percent=1.0)
+                other = Mps.random(model, sysm.qarg(), self._m_used, percent=1.0)
                 mps = mps.add(other.scale(1j))
                 mps.scale(1.0 / mps.mp_norm, inplace=True)
             except (FloatingPointError, ZeroDivisionError, ValueError, AssertionError, IndexError):
